@@ -117,7 +117,8 @@ def make_cases(rng, tier, n):
                 if ev == "delete":
                     ops.append(("rm", outp))
                 elif "d" in fl:
-                    ops.append(("write", outp + b"/f", "g:5:5"))
+                    # at depth 1, 2 or 3 below the directory output
+                    ops.append(("write", outp + rng.choice([b"/f", b"/sub/g", b"/sub/deep/h"]), "g:5:5"))
                 else:
                     ops.append(("write", outp, "g:5:5"))
                 dirty.add(i)
